@@ -5,6 +5,7 @@ import ast
 from ..index import unparse, iter_own_nodes, AnalysisError
 from ..cfg import calls_in_node, INF
 from ..framework import stores_to_name, assigned_values
+from .. import exprs as X
 from . import common
 
 EXPLANATION = (
@@ -312,17 +313,19 @@ def rule_mode(chk):
     tr, pcall = probe
     flag = None
     handler_ok = False
-    for h in tr.handlers:
-        if h.type is not None and unparse(h.type) == "TypeError":
-            for st in h.body:
-                if isinstance(st, ast.Assign) and isinstance(st.targets[0], ast.Name) and isinstance(st.value, ast.Constant) and st.value.value is True:
-                    flag = st.targets[0].id
-                    handler_ok = True
+    type_handlers = [h for h in tr.handlers if h.type is not None and unparse(h.type) == "TypeError"]
+    for h in type_handlers:
+        for st in h.body:
+            if isinstance(st, ast.Assign) and isinstance(st.targets[0], ast.Name) and isinstance(st.value, ast.Constant) and st.value.value is True:
+                flag = st.targets[0].id
+                handler_ok = True
     init_false = flag is not None and any(isinstance(v, ast.Constant) and v.value is False for v in assigned_values(f, flag))
-    chk.req(handler_ok and init_false, "C10.mode", "FileDestination.__new__:probe-selects-text-mode-on-TypeError", chk.where(f, tr.lineno),
-            good="flag %s: False, set True only when write(b'') raises TypeError" % flag,
-            fail="the text/binary probe does not set a flag (initially False) to True exactly on TypeError")
-    if flag is None:
+    hnodes = [n for n in cfg.live if n.kind == "handler" and any(n.ast is h for h in type_handlers)]
+    direct_form = flag is None and len(type_handlers) == 1 and len(tr.handlers) == 1 and bool(hnodes)
+    chk.req((handler_ok and init_false) or direct_form, "C10.mode", "FileDestination.__new__:probe-selects-text-mode-on-TypeError", chk.where(f, tr.lineno),
+            good=("flag %s: False, set True only when write(b'') raises TypeError" % flag) if flag else "text mode chosen in the `except TypeError` arm of the probe, binary mode when the probe write succeeds",
+            fail="the text/binary probe does not select text mode exactly when write(b'') raises TypeError")
+    if flag is None and not direct_form:
         return
     # the constructor call and what it passes
     ctor = None
@@ -341,7 +344,13 @@ def rule_mode(chk):
         for n in cfg.live:
             if isinstance(n.ast, ast.Assign) and any(isinstance(t, ast.Name) and t.id == name_expr.id for t in n.ast.targets):
                 pol = None
-                for t, lab in cfg.guards_of(n):
+                if flag is None:
+                    # direct form: the text arm is what only the TypeError handler reaches, the binary arm what it never reaches
+                    if cfg.must_pass([cfg.entry], [n], hnodes)[0]:
+                        pol = True
+                    elif n not in cfg.reach(hnodes):
+                        pol = False
+                for t, lab in (cfg.guards_of(n) if flag is not None else []):
                     if t.kind == "test":
                         e = t.exprs[0]
                         if isinstance(e, ast.Name) and e.id == flag:
@@ -397,14 +406,13 @@ def rule_default(chk):
     # helper returns its json_default unchanged when no encoder is given
     hcfg = ctx.cfg(helper)
     hp = helper.pos_params
-    okh = True
-    for r in common.returns_of(hcfg):
-        if not (isinstance(r.ast.value, ast.Name) and r.ast.value.id == hp[1]):
-            okh = False
+    is_enc = lambda x: isinstance(x, ast.Name) and x.id == hp[0]
+    notnone_edges = {(t, lab) for t in hcfg.live if t.kind == "test" for lab in ("true", "false") if X.none_branch(t.exprs[0], lab, is_enc) == "notnone"}
+    when_none = hcfg.reach([hcfg.entry], avoid_edges=notnone_edges, skip_labels=("exc",))   # everything that can run when no encoder is given
+    rets_none = [r for r in common.returns_of(hcfg) if r in when_none]
     stores = [n for n in hcfg.live if isinstance(n.ast, ast.Assign) and any(isinstance(t, ast.Name) and t.id == hp[1] for t in n.ast.targets)]
-    for s in stores:
-        guarded = any(t.kind == "test" and hp[0] in unparse(t.exprs[0]) and lab == "true" for t, lab in hcfg.guards_of(s))
-        okh = okh and guarded
+    okh = bool(notnone_edges) and bool(rets_none) and all(isinstance(r.ast.value, ast.Name) and r.ast.value.id == hp[1] for r in rets_none) \
+        and not any(s_ in when_none for s_ in stores)
     chk.req(okh, "C10.default", "_json_default_from_encoder_and_json_default:identity-without-encoder", chk.where(helper),
             good="returns json_default unchanged unless an encoder is given", fail="json_default is replaced even when no encoder is given")
     tf = ctx.func("_output", "to_file")
@@ -461,21 +469,23 @@ def rule_rich(chk):
         if not (isinstance(e, ast.Call) and isinstance(e.func, ast.Name) and e.func.id == "isinstance" and len(e.args) == 2
                 and isinstance(e.args[0], ast.Name) and e.args[0].id == oparam):
             continue
-        r = ctx.p.resolve_expr_static(jd.module, jd, e.args[1]) if isinstance(e.args[1], (ast.Name, ast.Attribute)) else None
-        tname = None
-        if r and r[0] == "ext" and r[1] in STD_RICH:
-            tname = STD_RICH[r[1]]
-        elif r and r[0] == "builtin" and r[1] in STD_RICH:
-            tname = r[1]
-        if tname is None:
+        tnames = []
+        for ce_ in (e.args[1].elts if isinstance(e.args[1], ast.Tuple) else [e.args[1]]):
+            r = ctx.p.resolve_expr_static(jd.module, jd, ce_) if isinstance(ce_, (ast.Name, ast.Attribute)) else None
+            if r and r[0] == "ext" and r[1] in STD_RICH:
+                tnames.append(STD_RICH[r[1]])
+            elif r and r[0] == "builtin" and r[1] in STD_RICH:
+                tnames.append(r[1])
+        if not tnames:
             continue
-        arms += 1
+        arms += len(tnames)
+        tname = "+".join(tnames)
         region = cfg.reach([s for s, l in t.succ if l == "true"], avoid={x for x, l in t.succ if l == "false"})
         rets = [n for n in region if n.kind == "return" and cfg.edge_dominates(t, "true", n)]
         bad = []
         for n in rets:
             for c, m in calls_in_node(n):
-                if isinstance(c.func, ast.Name) and c.func.id == "str" and tname == "Path":
+                if isinstance(c.func, ast.Name) and c.func.id == "str" and tname == "Path":  # str(Path) only
                     continue
                 for s_ in ctx.cg.sites[jd]:
                     if s_.call is c and ctx.cg.classify(s_) in ("foreign", "unknown"):
